@@ -419,6 +419,29 @@ func (r *Run) fail(kind, label, detail string) {
 	panic(pathEnd{kind + ": " + label})
 }
 
+// witness: a finding about the current path (not about a condition) needs the
+// path to be feasible. Returns a model of the inputs; ends the path if it is
+// infeasible (it can have survived a timed-out feasibility query); records an
+// 'unknown' and returns false if neither solver decides.
+func (r *Run) witness(what string) ([]uint64, bool) {
+	res := r.sol.CheckSat()
+	var vec []uint64
+	if res == Sat {
+		vec, _ = r.model()
+	} else if res == Unknown {
+		res, vec = r.secondOpinion(nil)
+	}
+	switch res {
+	case Unsat:
+		panic(pathEnd{"infeasible"})
+	case Sat:
+		return vec, true
+	}
+	r.unknowns++
+	r.addFinding("unknown", what, "feasibility of the path with this "+what+" finding is undecided by both solvers", nil)
+	return nil, false
+}
+
 // secondOpinion re-decides the path condition (and extra, if given) in a fresh
 // process of the other solver with a longer limit; with a model when sat.
 func (r *Run) secondOpinion(extra *Term) (SatResult, []uint64) {
